@@ -381,6 +381,21 @@ Theorem C15_first_failure : forall ext,
   /\ (forall cmds, (forall x, In x cmds -> ext x = 0%Z) -> upto_fail ext cmds = cmds /\ fail_status ext cmds = 0%Z).
 Proof. intro ext. split; [exact (upto_fail_first ext) | exact (upto_fail_none ext)]. Qed.
 
+(** `set -e` at ANY top-level position: the lines before it are external commands run with the flag off
+    (all of them run, whatever they return -- e.g. a failing one), then `set -e`, then lines as above. *)
+Theorem C15_sete_calls_script_at : forall ext file_text n fuel path text defs text_new rt pre sete lines cmds w,
+  file_text path = Some text -> function_table text = (defs, text_new) ->
+  tab_ok (set_funcs defs (s_funcs w)) rt ->
+  flat_parsed text_new (pre ++ sete :: lines) ->
+  s_eoe w = false ->
+  forallb ok_line pre = true -> forallb (is_ext_line rt) pre = true ->
+  cmd_words sete = [[115; 101; 116]; [45; 101]]%N ->
+  forallb ok_line (sete :: lines) = true ->
+  unfold rt (S fuel) lines = Some cmds ->
+  run_script ext file_text n (S (S fuel)) w path =
+    (mk_shs false (set_funcs defs (s_funcs w)) (s_log w ++ pre ++ upto_fail ext cmds), fail_status ext cmds).
+Proof. exact sete_calls_script_at. Qed.
+
 (** the two together, spelled out: if the inlined command sequence is [pre ++ c :: post] with every
     command of [pre] succeeding and [c] failing -- wherever [c] sits: top level or any call depth --
     the script has run exactly [pre ++ [c]] (nothing of [post]) and its status is that of [c]; if no
@@ -471,6 +486,44 @@ Proof.
   vm_compute. reflexivity.
 Qed.
 
+(** the same chain with `set -e` in the middle of the script, after a failing command *)
+Definition nv2_text : str := S2 "function inner {
+  in1
+  fail7
+  in_notreached
+}
+fail7
+zero
+set -e
+function outer() {
+  out1
+  inner
+  out_notreached
+}
+one
+outer
+notreached
+".
+Definition nv2_files (p : str) : option str := if str_eqb p (S2 "n2.sh") then Some nv2_text else None.
+Definition nv2_main : str := Eval vm_compute in snd (function_table nv2_text).
+Example C15_sete_calls_at_nonvacuous :
+  run_script fs_ext nv2_files 8 4 (mk_shs false [] []) (S2 "n2.sh") =
+    (mk_shs false (set_funcs nv_defs []) [S2 "fail7"; S2 "zero"; S2 "one"; S2 "out1"; S2 "in1"; S2 "fail7"], 7%Z).
+Proof.
+  assert (Ht : tab_ok (set_funcs nv_defs []) nv_rt).
+  { vm_compute. apply tab_cons; [prove_flat_parsed | vm_compute; reflexivity |].
+    apply tab_cons; [prove_flat_parsed | vm_compute; reflexivity | apply tab_nil]. }
+  assert (Hp : flat_parsed nv2_main ([S2 "fail7"; S2 "zero"] ++ S2 "set -e" :: nv_lines)) by prove_flat_parsed.
+  assert (Hu : unfold nv_rt 3 nv_lines =
+    Some [S2 "one"; S2 "out1"; S2 "in1"; S2 "fail7"; S2 "in_notreached"; S2 "out_notreached"; S2 "notreached"])
+    by (vm_compute; reflexivity).
+  assert (Hd : function_table nv2_text = (nv_defs, nv2_main)) by (vm_compute; reflexivity).
+  rewrite (C15_sete_calls_script_at fs_ext nv2_files 8 2 (S2 "n2.sh") nv2_text nv_defs nv2_main nv_rt
+             [S2 "fail7"; S2 "zero"] (S2 "set -e") nv_lines _
+             (mk_shs false [] []) eq_refl Hd Ht Hp eq_refl eq_refl eq_refl eq_refl eq_refl Hu).
+  vm_compute. reflexivity.
+Qed.
+
 (** The property, in full, and its refutation on the faithful model (what is left: a token
     holding a newline is not expanded -- first clause, stated for ALL tokens). *)
 Definition C15_full : Prop :=
@@ -547,6 +600,8 @@ Print Assumptions C15_sete_rest_of_body.
 Print Assumptions C15_sete_calls_trace.
 Print Assumptions C15_sete_calls_script.
 Print Assumptions C15_first_failure.
+Print Assumptions C15_sete_calls_script_at.
+Print Assumptions C15_sete_calls_at_nonvacuous.
 Print Assumptions C15_sete_calls_stops.
 Print Assumptions C15_sete_calls_nonvacuous.
 
